@@ -102,7 +102,7 @@ class C20(Prop):
                 mm = rng.randint(2, 6)
                 al, prof = gen.strict_profile(rng, mm, rng.randint(1, 5), max_mult=3)
                 yield {"kind": "matrix", "alts": al, "profile": gen.to_json_profile(prof),
-                       "fn": rng.choice(["kt", "fr", "se", "asym"])}
+                       "fn": rng.choice(["kt", "fr", "se", "asym"]), "grow": rng.random() < 0.3}
 
     @staticmethod
     def _near(rng, a):
@@ -131,7 +131,13 @@ class C20(Prop):
             a, b, c = case["a"], case["b"], case["c"]
             return {"ab": self._pair(a, b), "bc": self._pair(b, c), "ac": self._pair(a, c)}
         from preflibtools.properties import distances as D
-        inst = gen.make_ordinal(gen.from_json_profile(case["profile"]), alts=case["alts"])
+        fn0 = D.kendall_tau_distance
+        inst = None
+        if case.get("grow"):
+            inst = gen.grown_instance(gen.from_json_profile(case["profile"]), case["alts"], "soc",
+                                      lambda i: D.distance_matrix(i, fn0))
+        if inst is None:
+            inst = gen.make_ordinal(gen.from_json_profile(case["profile"]), alts=case["alts"])
         fn = {"kt": D.kendall_tau_distance, "fr": D.spearman_footrule_distance,
               "se": D.sertel_distance,
               "asym": lambda x, y: x[0][0] * 1000 + y[0][0] + 7 * len(x)}[case["fn"]]
